@@ -260,7 +260,7 @@ pub fn check_image(ag: &AG, rd: &RenderedY, grm: &YaccGrammar<u32>, out: &mut Ca
         }
         let want_at = match ag.kind {
             AKind::Grmtools => r.actiontype.clone().or(Some("()".to_string())),
-            AKind::OriginalUser => Some("u64".to_string()),
+            AKind::OriginalUser => Some(ag.rules[0].actiontype.clone().unwrap_or("u64".to_string())),
             _ => None,
         };
         if *grm.actiontype(rmap[ri]) != want_at {
